@@ -231,6 +231,10 @@ class ResolveAnchorIds(Transform):
                     refnode += nodes.inline(
                         implicit_title, implicit_title, classes=["std", "std-ref"]
                     )
+                elif not refnode.children:
+                    refnode += nodes.inline(
+                        "#" + target, "#" + target, classes=["std", "std-ref"]
+                    )
                 continue
 
             # if still not found, and using sphinx, then create a pending_xref
